@@ -72,4 +72,28 @@ theorem translated_bits_body (buf : Bytes) (pos len acc k : Nat) :
       apply Nat.mod_eq_of_lt; omega
     rw [this]
 
+theorem subU_len (len : Nat) (h2 : 2 ≤ len) (h : len < 2 ^ 64) : Go64.subU len 2 = len - 2 := by
+  unfold Go64.subU Go64.ofI
+  omega
+
+/-- The translated two's-complement branch of `GetBitsAsInt64` is the model's, for every bit
+    pattern and every length a `uint` can hold from 2 upwards. -/
+theorem translated_neg_branch (uval len : Nat) (h2 : 2 ≤ len) (h : len < 2 ^ 64) :
+    Gen.fn_utils_GetBitsAsInt64_neg uval len =
+      wrapI64 (wrapI64 (-1 * toI64 (uval &&& ((2 <<< (len - 2)) % 2 ^ 64)))
+        + toI64 (uval &&& notU64 ((2 <<< (len - 2)) % 2 ^ 64))) := by
+  unfold Gen.fn_utils_GetBitsAsInt64_neg
+  simp only [Go64.addI, Go64.mulI, Go64.andU, Go64.shlU, Go64.notU, subU_len len h2 h]
+  rfl
+
+/-- `GetBitsAsInt64` of the model, with its arithmetic branch replaced by the translated code. -/
+theorem getBitsI_translated (buf : Bytes) (pos len : Nat) (h2 : 2 ≤ len) (h : len < 2 ^ 64) :
+    getBitsI buf pos len =
+      if getBitsU buf pos 1 == 1 then Gen.fn_utils_GetBitsAsInt64_neg (getBitsU buf pos len) len
+      else toI64 (getBitsU buf pos len) := by
+  rw [translated_neg_branch _ _ h2 h]
+  unfold getBitsI
+  simp only [h2, if_true]
+  rfl
+
 end Ntrip
